@@ -36,6 +36,19 @@ example : XmlSpec.readAll true [97, 9, 98] = some [97, 32, 98] := by decide
 example : YangText [13, 9, 10, 34, 39, 38, 60, 62, 93, 93, 62, 127, 0xC3, 0xA9, 0xF0, 0x9F, 0x98, 0x80] :=
   isYangText_sound _ (by decide)
 
+/-- non-vacuity (audit): both character-data theorems instantiated at that string; the printed forms differ from the
+    string and from each other (attribute values escape TAB, LF and `"` in addition), and both read back to it -/
+def exS : Bytes := [13, 9, 10, 34, 39, 38, 60, 62, 93, 93, 62, 127, 0xC3, 0xA9, 0xF0, 0x9F, 0x98, 0x80]
+
+example : XmlSpec.readAll true (dumpText true exS) = some exS ∧ XmlSpec.readAll false (dumpText false exS) = some exS :=
+  ⟨xml_chardata_faithful true exS (isYangText_sound _ (by decide)),
+   xml_chardata_faithful false exS (isYangText_sound _ (by decide))⟩
+
+example : dumpText true exS ≠ dumpText false exS ∧ dumpText false exS ≠ exS := by decide
+
+example : JsonSpec.readToken (JsonText.printString exS ++ [44, 49]) = some (exS, [44, 49]) :=
+  json_string_faithful exS [44, 49] (isYangText_sound _ (by decide))
+
 /-- XML, tree level: for EVERY forest of printed nodes (any depth, any number of siblings, any mix of namespaces, names that are
     XML names, namespace and value strings without forbidden control characters — every `YangText` string; v1: nodes without
     metadata), the document `xml_print_data` emits in shrink mode is well-formed XML 1.0 with namespaces, and a namespace-aware
@@ -51,6 +64,18 @@ example : XmlTree.ListOk
     [.inner [117, 49] [99] [] [.term [117, 49] [97] [] [60, 38, 13], .inner [117, 38, 50] [100] [] [.term [117, 49] [101] [] []],
       .term [117, 49] [102] [] [120]], .term [117, 38, 50] [103] [] [93, 93, 62]] := by
   simp [XmlTree.ListOk, XmlTree.NodeOk, XmlTree.NameOk, XmlDoc.isNameByte, XmlText.NoCtl]
+
+/-- non-vacuity (audit): the theorem instantiated at that forest, with the reader's result written out: depth 3, two
+    namespaces switching back and forth, escaped, empty and `]]>` content -/
+def exForest : List XmlTree.XNode :=
+    [.inner [117, 49] [99] [] [.term [117, 49] [97] [] [60, 38, 13], .inner [117, 38, 50] [100] [] [.term [117, 49] [101] [] []],
+      .term [117, 49] [102] [] [120]], .term [117, 38, 50] [103] [] [93, 93, 62]]
+
+example : XmlDoc.parseDoc (XmlTree.printData exForest) = some
+    [.mk [117, 49] [99] [] [] [.mk [117, 49] [97] [] [60, 38, 13] [], .mk [117, 38, 50] [100] [] [] [.mk [117, 49] [101] [] [] []],
+      .mk [117, 49] [102] [] [120] []], .mk [117, 38, 50] [103] [] [93, 93, 62] []] :=
+  xml_document_faithful exForest
+    (by simp [exForest, XmlTree.ListOk, XmlTree.NodeOk, XmlTree.NameOk, XmlDoc.isNameByte, XmlText.NoCtl])
 /-- what is printed for (part of) it: `<c xmlns="u1"><a>&lt;&amp;&#xD;</a><d xmlns="u&amp;2"><e xmlns="u1"/></d></c>` -/
 example : XmlTree.printData
     [.inner [117, 49] [99] [] [.term [117, 49] [97] [] [60, 38, 13], .inner [117, 38, 50] [100] [] [.term [117, 49] [101] [] []]]]
@@ -70,6 +95,26 @@ def rfc7951Kind : String → String
 /-- `json_print_value`: the base-type switch read off the C source by the translator IS the RFC 7951 table — 64-bit integers and
     decimal64 as strings, the other numbers and booleans as literals, `empty` as `[null]`, a union as its member type. -/
 theorem json_typing_rfc7951 : ∀ e ∈ Generated.jsonTyping, e.2.2 = rfc7951Kind e.2.1 := by decide
+
+-- AUDIT: `json_typing_rfc7951` quantifies over the rows of a GENERATED table: it is true of an empty or a partial table
+-- (an extractor that finds no `case` label), so by itself it says "every row found agrees with RFC 7951", not "the switch IS
+-- the table" as the docstring has it.  Minimal repair: add the converse inclusion — every base type RFC 7951 sec. 6 speaks
+-- about has a row (and no type has two rows).  Proved below as `json_typing_covers_rfc7951`; with it a lost row breaks the
+-- build instead of weakening the claim silently.
+
+/-- the converse: each of the 18 base types of RFC 7951 sec. 6 (and the two that must be errors: unknown, leafref) has exactly
+    one row in the table read off the source -/
+theorem json_typing_covers_rfc7951 :
+    (∀ n ∈ ["LY_TYPE_BINARY", "LY_TYPE_UINT8", "LY_TYPE_UINT16", "LY_TYPE_UINT32", "LY_TYPE_UINT64", "LY_TYPE_STRING",
+            "LY_TYPE_BITS", "LY_TYPE_BOOL", "LY_TYPE_DEC64", "LY_TYPE_EMPTY", "LY_TYPE_ENUM", "LY_TYPE_IDENT", "LY_TYPE_INST",
+            "LY_TYPE_UNION", "LY_TYPE_INT8", "LY_TYPE_INT16", "LY_TYPE_INT32", "LY_TYPE_INT64", "LY_TYPE_UNKNOWN",
+            "LY_TYPE_LEAFREF"],
+        (Generated.jsonTyping.filter fun e => e.2.1 == n).length = 1)
+    ∧ Generated.jsonTyping.length = 20 := by decide
+
+/-- non-vacuity (audit): the table has rows of all five kinds, so `json_typing_rfc7951` compares something in each -/
+example : ∀ k ∈ ["str", "lit", "empty", "union", "error"], ∃ e ∈ Generated.jsonTyping, e.2.2 = k ∧ rfc7951Kind e.2.1 = k := by
+  decide
 
 /-- **The JSON tree printer lays a data tree out as RFC 7951 sec. 4/5 prescribe, whatever the tree**: for every forest without
     metadata (v1) — any depth, any mix of printed and unprinted (`lyd_node_should_print` = false: trimmed defaults, implicit
@@ -121,5 +166,42 @@ example :
     JsonTree.OkJL forest := by
   simp [JsonTree.OkJL, JsonTree.OkJ, JsonTree.ValueOk, JsonDoc.KeyOk, JsonDoc.LitOk]
   decide
+
+/-- non-vacuity (audit): a deeper forest with every kind of member — a container holding a string leaf that needs escapes,
+    a leaf-list run with a skipped middle instance, a container of another module (qualified name) with an `empty` leaf, a
+    list with two instances (string key, boolean literal), then a skipped and a printed top-level leaf of a second module:
+    `{"m:c":{"s":"a\"\u000Aé","q":[7,-9],"n:d":{"e":[null]},"l":[{"k":"18","b":true},{"k":"2"}]},"n:y":1}` -/
+def exJ : List JsonTree.JNode :=
+  [ .mk .cont 1 [109] [99] true [] .str []
+      [ .mk .leaf 2 [109] [115] true [] .str [97, 34, 10, 0xC3, 0xA9] [],
+        .mk .leaflist 3 [109] [113] true [] .lit [55] [],
+        .mk .leaflist 3 [109] [113] false [] .lit [56] [],
+        .mk .leaflist 3 [109] [113] true [] .lit [45, 57] [],
+        .mk .cont 4 [110] [100] true [] .str [] [ .mk .leaf 5 [110] [101] true [] .empty [] [] ],
+        .mk .list 6 [109] [108] true [] .str []
+          [ .mk .leaf 7 [109] [107] true [] .str [49, 56] [], .mk .leaf 8 [109] [98] true [] .lit [116, 114, 117, 101] [] ],
+        .mk .list 6 [109] [108] true [] .str [] [ .mk .leaf 7 [109] [107] true [] .str [50] [] ] ],
+    .mk .leaf 9 [110] [122] false [] .lit [49] [],
+    .mk .leaf 10 [110] [121] true [] .lit [49] [] ]
+
+theorem exJ_ok : JsonTree.OkL [] exJ ∧ JsonTree.AdjKind exJ :=
+  ⟨by simp [exJ, JsonTree.OkL, JsonTree.Ok, JsonTree.AdjKind, JsonTree.JNode.sid, JsonTree.JNode.kind],
+   by simp [exJ, JsonTree.AdjKind, JsonTree.JNode.sid, JsonTree.JNode.kind]⟩
+
+theorem exJ_okj : JsonTree.OkJL exJ := by
+  simp [exJ, JsonTree.OkJL, JsonTree.OkJ, JsonTree.ValueOk, JsonDoc.KeyOk, JsonDoc.LitOk]
+  decide
+
+example : JsonTree.printData exJ = JsonTree.specData exJ := json_tree_refines_spec exJ exJ_ok.1 exJ_ok.2
+
+example : JsonDoc.parseDoc (JsonTree.printData exJ) = some (JsonTree.jsonView exJ) :=
+  json_document_faithful exJ exJ_ok.1 exJ_ok.2 exJ_okj
+
+/-- … and what is printed for it (kernel evaluation) -/
+example : JsonTree.printData exJ =
+    [123, 34, 109, 58, 99, 34, 58, 123, 34, 115, 34, 58, 34, 97, 92, 34, 92, 117, 48, 48, 48, 65, 195, 169, 34, 44, 34, 113,
+     34, 58, 91, 55, 44, 45, 57, 93, 44, 34, 110, 58, 100, 34, 58, 123, 34, 101, 34, 58, 91, 110, 117, 108, 108, 93, 125, 44,
+     34, 108, 34, 58, 91, 123, 34, 107, 34, 58, 34, 49, 56, 34, 44, 34, 98, 34, 58, 116, 114, 117, 101, 125, 44, 123, 34, 107,
+     34, 58, 34, 50, 34, 125, 93, 125, 44, 34, 110, 58, 121, 34, 58, 49, 125] := by decide +kernel
 
 end LyModel.Props.C12
